@@ -348,11 +348,13 @@ pub fn timeout_worker(args: &[String]) -> i32 {
     let spin_us: u64 = args[3].parse().unwrap();
     let depth: usize = args[4].parse().unwrap();
     let chain = args[5] == "1";
+    // optional: time that passes between configuring the builder (incl. its timeout) and spawning
+    let builder_delay_ms: u64 = args.get(6).and_then(|a| a.parse().ok()).unwrap_or(0);
     let grace = Duration::from_millis(2500);
-    let t0 = Instant::now();
+    let mut t0 = Instant::now();
     let model = TreeModel {
         spin_us,
-        late_after: t0 + Duration::from_millis(timeout_ms) + grace,
+        late_after: t0 + Duration::from_millis(builder_delay_ms) + Duration::from_millis(timeout_ms) + grace,
         late: Arc::new(AtomicU64::new(0)),
         total: Arc::new(AtomicU64::new(0)),
         chain,
@@ -362,6 +364,12 @@ pub fn timeout_worker(args: &[String]) -> i32 {
     let mut b = model.checker().threads(threads).timeout(Duration::from_millis(timeout_ms));
     if depth > 0 {
         b = b.target_max_depth(depth);
+    }
+    if builder_delay_ms > 0 {
+        // the timeout is a property of the *check*: its clock starts when the check is spawned,
+        // however long ago the builder was configured
+        std::thread::sleep(Duration::from_millis(builder_delay_ms));
+        t0 = Instant::now();
     }
     let joined = Arc::new(AtomicBool::new(false));
     let joined_at = Arc::new(Mutex::new(None::<f64>));
@@ -402,9 +410,19 @@ pub fn timeout_worker(args: &[String]) -> i32 {
     while Instant::now() < observe_until && !joined.load(Ordering::SeqCst) {
         std::thread::sleep(Duration::from_millis(10));
     }
+    // join not back: is anything still being evaluated? (three samples one second apart)
+    let mut quiescent = false;
+    if !joined.load(Ordering::SeqCst) {
+        let mut samples = vec![total.load(Ordering::Relaxed)];
+        for _ in 0..3 {
+            std::thread::sleep(Duration::from_secs(1));
+            samples.push(total.load(Ordering::Relaxed));
+        }
+        quiescent = samples.windows(2).all(|w| w[0] == w[1]) && !joined.load(Ordering::SeqCst);
+    }
     println!(
         "{}",
-        json!({"joined": joined.load(Ordering::SeqCst), "joined_at_s": *joined_at.lock().unwrap(), "never_discovery": *discovery.lock().unwrap(),
+        json!({"joined": joined.load(Ordering::SeqCst), "quiescent_but_not_joined": quiescent, "joined_at_s": *joined_at.lock().unwrap(), "never_discovery": *discovery.lock().unwrap(),
                "late_evaluations": late.load(Ordering::Relaxed), "total_evaluations": total.load(Ordering::Relaxed),
                "observed_s": t0.elapsed().as_secs_f64()})
     );
@@ -432,6 +450,11 @@ fn timeout_expiry(ctx: &Ctx) {
     scenarios.push(("simulation".into(), 2, 31, 0, true));
     scenarios.push(("dfs".into(), 2, 29, 0, false));
     scenarios.push(("simulation".into(), 1, 29, 0, false));
+    // the builder is configured (timeout included) 1.3 s before the check is spawned: the
+    // timeout's clock must start at the spawn (spin value 28 marks these)
+    scenarios.push(("bfs".into(), 2, 28, 0, false));
+    scenarios.push(("dfs".into(), 1, 28, 0, true));
+    scenarios.push(("simulation".into(), 2, 28, 0, true));
     // one endless simulation trace
     scenarios.push(("simulation".into(), 1, 30, 0, true));
     scenarios.push(("simulation".into(), 3, 30, 0, true));
@@ -452,10 +475,13 @@ fn timeout_expiry(ctx: &Ctx) {
             _ => 1000,
         };
         let sname = strategy.trim_end_matches("_depth");
-        let args: Vec<String> = vec![
+        let mut args: Vec<String> = vec![
             "timeout".into(), sname.into(), threads.to_string(), timeout_ms.to_string(),
             spin_us.to_string(), depth.to_string(), if chain { "1".into() } else { "0".into() },
         ];
+        if spin_us == 28 {
+            args.push("1300".into());
+        }
         case.distinct(crate::ctx::hash_of(&args), true);
         case.sample(|| json!({"scenario": args}));
         let out = run_worker(&args, Duration::from_secs(30));
@@ -489,6 +515,13 @@ fn timeout_expiry(ctx: &Ctx) {
                 &format!("C12/timeout/{}/{}{}/keeps-evaluating-after-expiry", strategy, tclass, shape),
                 json!({"scenario": args, "result": v, "bound_on_late_evaluations": bound,
                        "note": "evaluations that started more than 2.5 s after the 1 s timeout expired"}),
+            );
+        } else if !joined && v["quiescent_but_not_joined"].as_bool() == Some(true) {
+            // nothing was evaluated for three seconds, well after the expiry, and join still has
+            // not returned: the workers are not busy, they are stuck
+            case.violation(
+                &format!("C12/timeout/{}/{}{}/join-does-not-return-although-nothing-is-evaluated-any-more", strategy, tclass, shape),
+                json!({"scenario": args, "result": v}),
             );
         } else if !joined {
             case.inconclusive(&format!("{} t={}: few late evaluations ({}) but join had not returned {:.1}s after start", strategy, threads, late, v["observed_s"].as_f64().unwrap_or(0.0)));
